@@ -402,6 +402,24 @@ def nested_repeat_same_template(rng):
     return doc
 
 
+def named_outer_nested_inner(rng):
+    """a document-level `$repeat` with NAMED counts whose body holds a nested `$repeat` (map or list form) that uses the outer
+    index: every generated document evaluates the nested template under ITS OWN binding"""
+    names = rng.sample(["x", "y"], rng.randint(1, 2))
+    outer = "-".join("{$repeat:%s}" % n for n in names)
+    inner_body = {"$repeat": rng.choice([1, 2, 3]), "id": "$\"%s-{$repeat}\"" % outer}
+    if rng.random() < 0.3:
+        inner_body["plain"] = "$repeat"
+    if rng.random() < 0.6:
+        nested = {rng.choice(["$\"s{$repeat}\"", "$\"s%s-{$repeat}\"" % outer]): inner_body}
+    else:
+        nested = [inner_body, {"fixed": "$\"%s\"" % outer}]
+    doc = {"$repeat": {n: rng.choice([2, 3]) for n in names}, "shards": nested}
+    if rng.random() < 0.4:
+        doc["top"] = "$\"%s\"" % outer
+    return doc
+
+
 def lookalike_encodes(rng):
     """several `$encode`s of ONE format in one document over values that print alike but are different values
     (1 / "1" / 1.0, true / "true", ["p q", "r"] / ["p", "q r"]): each must get its own encoding"""
